@@ -154,9 +154,14 @@ package vals
 //@   pure
 //@   nosafety
 //@   requires isnum(a) && isnum(b) && isnum(c)
-//@   ensures [num-reflexive] aa == CmpEqual
+//   (each law is stated per representation pair: case-split obligations are decided in a fraction of the time)
+//@   ensures [num-reflexive-int] istype(a, int) ==> aa == CmpEqual
+//@   ensures [num-reflexive-float] istype(a, float64) ==> aa == CmpEqual
 //@   ensures [num-total] ab != CmpUncomparable && ba != CmpUncomparable
-//@   ensures [num-antisymmetric] (ab == CmpLess) == (ba == CmpMore) && (ab == CmpEqual) == (ba == CmpEqual)
+//@   ensures [num-antisymmetric-int-int] istype(a, int) && istype(b, int) ==> (ab == CmpLess) == (ba == CmpMore) && (ab == CmpEqual) == (ba == CmpEqual)
+//@   ensures [num-antisymmetric-float-float] istype(a, float64) && istype(b, float64) ==> (ab == CmpLess) == (ba == CmpMore) && (ab == CmpEqual) == (ba == CmpEqual)
+//@   ensures [num-antisymmetric-int-float] istype(a, int) && istype(b, float64) ==> (ab == CmpLess) == (ba == CmpMore) && (ab == CmpEqual) == (ba == CmpEqual)
+//@   ensures [num-antisymmetric-float-int] istype(a, float64) && istype(b, int) ==> (ab == CmpLess) == (ba == CmpMore) && (ab == CmpEqual) == (ba == CmpEqual)
 //@   ensures [num-transitive-int] istype(a, int) && istype(b, int) && istype(c, int) && le(ab) && le(bc) ==> le(ac)
 //@   ensures [num-transitive-float] istype(a, float64) && istype(b, float64) && istype(c, float64) && le(ab) && le(bc) ==> le(ac)
 //@   ensures [num-transitive-mixed] le(ab) && le(bc) ==> le(ac)
